@@ -486,3 +486,14 @@ F("H12", "C06", KG, "      if q > p:\n        p, q = q, p\n      n = p * q", "  
 F("H13", "C06", KG, "GCD_30_DELTA = [6, 4, 2, 4, 2, 4, 6, 2]", "GCD_30_DELTA = [6, 4, 2, 4, 2, 4, 2, 6]", "R-C06-KEYGEN", "wheel table permuted")
 F("H14", "C06", KG, "      prime_bytes = prime_bytes[1 : p_size_bytes + 1]", "      prime_bytes = prime_bytes[:p_size_bytes]", "R-C06-KEYGEN", "byte window shifted")
 F("H15", "C18", ES, "            for i in range(0, len(a), size):", "            for i in range(0, len(a) + 1, size):", "R-C18-WINDOW", "empty trailing window when size divides len(a)")
+
+# ---------------------------------------------------------------------------------- constructions (C04 Lehman, C05 lattice/quadratic)
+F("J01", "C04", SC, "      d = 4 * u * v * n\n", "      d = 2 * u * v * n\n", "R-C04-LEHMAN", "Fermat step on 2uvn")
+F("J02", "C04", SC, "      if a * a < d:\n        a += 1\n", "", "R-C04-LEHMAN", "a = floor(sqrt d) (a^2 - d negative)")
+F("J03", "C04", SC, "  q_0 = n // p_0\n", "  q_0 = n // (p_0 + 1)\n", "R-C04-LEHMAN", "q_0 not the cofactor guess")
+F("J04", "C04", SC, "        g = gmpy.gcd(a + b, n)", "        g = gmpy.gcd(a * b, n)", "R-C04-LEHMAN", "gcd of the wrong combination")
+T("J05", "C04", SC, "      if a * a < d:\n        a += 1\n", "      if a * a != d:\n        a += 1\n", "isqrt(d)^2 != d is the same test as < d")
+F("J06", "C05", RU, "  lat = [[x, 0, u * d0 % w], [0, x, v * d0 % w], [0, 0, w]]", "  lat = [[x, 0, u * d0 % w], [0, x, v % w], [0, 0, w]]", "R-C05-CONSTRUCT", "lattice row without the denominator")
+F("J07", "C05", RU, "    if a and c and gmpy.is_square(b * b - 4 * a * c):\n      t = gmpy.isqrt(b * b - 4 * a * c)", "    if a and c and gmpy.is_square(b * b - 2 * a * c):\n      t = gmpy.isqrt(b * b - 2 * a * c)", "R-C05-CONSTRUCT", "wrong discriminant")
+F("J08", "C05", RU, "      for rt in (t, -t):\n", "      for rt in (t,):\n", "R-C05-CONSTRUCT", "only one root tried")
+F("J09", "C05", RU, "  x = 2 ** (n.bit_length() // 2)\n  for quot, _, v in cf:", "  x = 2 ** (n.bit_length() // 2 - 1)\n  for quot, _, v in cf:", "R-C05-CONSTRUCT", "split point of the quadratic moved")
